@@ -261,7 +261,8 @@ structure ObjInv (vc : Bool) (s : PP) : Prop where
 
 theorem expandable_mem {tbl : List Macro} {D : List String} {t : Tok} {m : Macro}
     (h : expandable tbl D t = some m) :
-    t.isIdent = true ∧ m ∈ tbl ∧ m.name ∉ D ∧ (enabledOf tbl D).find? (fun x => x.name == t.text) = some m := by
+    t.isIdent = true ∧ m ∈ tbl ∧ m.name ∉ D ∧ (enabledOf tbl D).find? (fun x => x.name == t.text) = some m ∧
+    tbl.find? (fun x => x.name == t.text) = some m := by
   have h2 := h
   rw [expandable_eq] at h2
   unfold expandable at h
@@ -273,7 +274,7 @@ theorem expandable_mem {tbl : List Macro} {D : List String} {t : Tok} {m : Macro
       rw [hf] at h
       simp at h
       obtain ⟨hnd, rfl⟩ := h
-      exact ⟨hid, List.mem_of_find?_eq_some hf, hnd, h2⟩
+      exact ⟨hid, List.mem_of_find?_eq_some hf, hnd, h2, rfl⟩
   · simp [hid] at h
 
 /-- processing one token: the invariant is kept, the measure drops, at most one token is output -/
@@ -290,7 +291,7 @@ theorem ptObj_step (vc : Bool) (t : ITok) (s : PP) (h : ObjInv vc s) :
     refine ⟨⟨h.obj, h.nd, h.ex, h.inp⟩, ?_, ?_⟩ <;>
       simp [smeas, meas, PP.clear, PP.pushOut] <;> omega
   | some m =>
-    obtain ⟨hid, hm, hnd, hf⟩ := expandable_mem he
+    obtain ⟨hid, hm, hnd, hf, _⟩ := expandable_mem he
     have hw := wt_expand vc (enabledOf s.table s.disabled) t.tok m hid hf
     simp only
     cases hl : (objBody vc m).getLast? with
